@@ -59,7 +59,11 @@ LayoutCase(vi) == [k |-> "layout", id |-> Catalog[ci].id, L |-> L, facts |-> Fac
 EmitDesc == L = MinSize(T) => PrintT(<<"DESC", ToJson(Catalog[ci])>>)
 EmitFacts == \A vi \in 1..Len(Trees) : PrintT(<<"CASE", ToJson(LayoutCase(vi))>>)
 
-WF == WellFormed(T)
+EmitNeg == \A i \in DOMAIN NegCatalog : PrintT(<<"NEG", ToJson(NegCatalog[i])>>)
+ASSUME EmitNeg
+\* every negative definition is one the specification says must not be accepted
+ASSUME \A i \in DOMAIN NegCatalog : ~Acceptable(NegCatalog[i].t)
+WF == Acceptable(T)
 Sane == LayoutSane(T)
 Inside == ViewInside(T, L)
 \* portable enums with a tag wider than one byte are the recorded exception (finding #13):
